@@ -497,6 +497,8 @@ func modelErrorf(st *State, fr *Frame, fn *ssa.Function, a []Val, pos token.Pos)
 	st.assume(fmt.Sprintf("(forall ((tt Int) (tv Int)) (! (= (errIs %s %s tt tv) (or (and (= tt %s) (= tv %s)) %s)) :pattern ((errIs %s %s tt tv))))",
 		tag, r, tag, r, innerIs, tag, r))
 	st.assume(eq(fmt.Sprintf("(asExp %s %s)", tag, r), st.asExpiredOK(inner)))
+	// a wrapped error is still an error "produced by" whoever produced the wrapped one (C02 provenance)
+	st.assume(fmt.Sprintf("(forall ((k Int)) (! (=> (errprov k %s %s) (errprov k %s %s)) :pattern ((errprov k %s %s))))", inner.C[0], inner.C[1], tag, r, tag, r))
 	e.assumeUsed("fmt.Errorf with %w wraps its operand: errors.Is/As delegate to it")
 	return rv(Val{T: errT, C: []string{tag, r}})
 }
